@@ -63,7 +63,10 @@ static void world_setup(void)
     for (int k = 0; k < NPL; k++) { if (!again) POOL[k] = cmb_resourcepool_create(); POOLCAP[k] = 1 + vr_below(&G, 8); if (vr_chance(&G, 1, 8)) { static const uint64_t huge[] = { UINT64_MAX, ((uint64_t)1 << 63) + 5, UINT64_MAX - 1 }; POOLCAP[k] = huge[vr_below(&G, 3)]; VR_CNT("pools_with_capacity_above_2_63"); } snprintf(nm, sizeof nm, "pool%d", k); cmb_resourcepool_initialize(POOL[k], nm, POOLCAP[k]); if (again && (cmb_resourcepool_in_use(POOL[k]) != 0 || cmb_resourcepool_available(POOL[k]) != POOLCAP[k])) VIOL("C07/in-use-after-reinitialize", "pool %d initialised again with capacity %" PRIu64 ": in_use %" PRIu64 ", available %" PRIu64, k, POOLCAP[k], cmb_resourcepool_in_use(POOL[k]), cmb_resourcepool_available(POOL[k])); add_guard(&POOL[k]->guard, GT_POOL, k); add_rec(RC_POOL, k); for (int q = 0; q < MAXP; q++) { sh_pool[k][q] = 0; last_lib_pool[k][q] = 0; } ppre_pid[k] = -1; }
     for (int k = 0; k < NB; k++) { if (!again) BUF[k] = cmb_buffer_create(); BUFCAP[k] = bufcaps[vr_below(&G, 5)]; snprintf(nm, sizeof nm, "buf%d", k); cmb_buffer_initialize(BUF[k], nm, BUFCAP[k]); if (again && (cmb_buffer_level(BUF[k]) != 0 || cmb_buffer_space(BUF[k]) != BUFCAP[k])) VIOL("C11/level-after-reinitialize", "buffer %d initialised again with capacity %" PRIu64 ": level %" PRIu64 ", space %" PRIu64, k, BUFCAP[k], cmb_buffer_level(BUF[k]), cmb_buffer_space(BUF[k])); buf_last[k] = cmb_buffer_level(BUF[k]); buf_init[k] = buf_last[k]; buf_put_total[k] = buf_got_total[k] = 0; add_guard(&BUF[k]->front_guard, GT_BUFFRONT, k); add_guard(&BUF[k]->rear_guard, GT_BUFREAR, k); add_rec(RC_BUF, k); }
     for (int k = 0; k < NOQ; k++) { if (!again) OQ[k] = cmb_objectqueue_create(); OQCAP[k] = qcaps[vr_below(&G, 4)]; snprintf(nm, sizeof nm, "oq%d", k); cmb_objectqueue_initialize(OQ[k], nm, OQCAP[k]); if (again && (cmb_objectqueue_length(OQ[k]) != 0 || cmb_objectqueue_space(OQ[k]) != OQCAP[k])) VIOL("C12/length-after-reinitialize", "objectqueue %d initialised again: length %" PRIu64, k, cmb_objectqueue_length(OQ[k])); oqn[k] = 0; add_guard(&OQ[k]->front_guard, GT_OQFRONT, k); add_guard(&OQ[k]->rear_guard, GT_OQREAR, k); add_rec(RC_OQ, k); }
-    for (int k = 0; k < NPQ; k++) { if (!again) PQ[k] = cmb_priorityqueue_create(); PQCAP[k] = qcaps[vr_below(&G, 4)]; snprintf(nm, sizeof nm, "pq%d", k); cmb_priorityqueue_initialize(PQ[k], nm, PQCAP[k]); if (again && (cmb_priorityqueue_length(PQ[k]) != 0 || cmb_priorityqueue_space(PQ[k]) != PQCAP[k])) VIOL("C12/length-after-reinitialize", "priorityqueue %d initialised again: length %" PRIu64, k, cmb_priorityqueue_length(PQ[k])); pqn[k] = 0; pq_ndead[k] = 0; add_guard(&PQ[k]->front_guard, GT_PQFRONT, k); add_guard(&PQ[k]->rear_guard, GT_PQREAR, k); add_rec(RC_PQ, k); }
+    for (int k = 0; k < NPQ; k++) { if (!again) PQ[k] = cmb_priorityqueue_create(); PQCAP[k] = qcaps[vr_below(&G, 4)]; snprintf(nm, sizeof nm, "pq%d", k); cmb_priorityqueue_initialize(PQ[k], nm, PQCAP[k]); if (again && (cmb_priorityqueue_length(PQ[k]) != 0 || cmb_priorityqueue_space(PQ[k]) != PQCAP[k])) VIOL("C12/length-after-reinitialize", "priorityqueue %d initialised again: length %" PRIu64, k, cmb_priorityqueue_length(PQ[k])); if (again) { /* handles of the earlier life stay known to the scripts: they name objects that are gone, whatever the new life queues */
+            for (int j = 0; j < pqn[k]; j++) { if (pq_ndead[k] < 64) pq_dead[k][pq_ndead[k]++] = pqm[k][j].h; else pq_dead[k][vr_below(&G, 64)] = pqm[k][j].h; } if (pq_ndead[k]) VR_CNT("c12_queues_reinitialised_with_old_handles_remembered"); }
+        else pq_ndead[k] = 0;
+        pqn[k] = 0; add_guard(&PQ[k]->front_guard, GT_PQFRONT, k); add_guard(&PQ[k]->rear_guard, GT_PQREAR, k); add_rec(RC_PQ, k); }
     int nobjguards = ngd;
     /* documented: any guard may observe another one (no cycles): a signal on i is forwarded to j and on to j's observers */
     memset(GOBS, 0, sizeof GOBS); memset(OBS, 0, sizeof OBS);
@@ -105,7 +108,7 @@ static void world_teardown(void)
     FILE *nul = fopen("/dev/null", "w");
     if (nul) {
         for (int k = 0; k < nrec; k++) { if (!REC[k].ever || cmb_timeseries_count(rec_hist(&REC[k])) < 1) continue;
-            switch (REC[k].cls) { case RC_RES: cmb_resource_print_report(RES[REC[k].obj], nul); break; case RC_POOL: cmb_resourcepool_print_report(POOL[REC[k].obj], nul); break; case RC_BUF: cmb_buffer_print_report(BUF[REC[k].obj], nul); break; case RC_OQ: cmb_objectqueue_report_print(OQ[REC[k].obj], nul); break; default: cmb_priorityqueue_report_print(PQ[REC[k].obj], nul); }
+            c14_report(k);
             VR_CNT("reports_printed"); }
         fclose(nul);
     }
